@@ -57,6 +57,7 @@ fn main() {
                         "dce" => { aelys_opt::DeadCodeEliminator::new().run(&mut t); }
                         "fold" => { aelys_opt::ConstantFolder::new().run(&mut t); }
                         "globalprop" => { aelys_opt::GlobalConstantPropagator::new().run(&mut t); }
+                        "unused" => { aelys_opt::passes::UnusedVarEliminator::new().run(&mut t); }
                         _ => {}
                     }
                     t
